@@ -21,7 +21,11 @@
 (*              combines `old_hash ^ new_hash`: a file whose suffix window repeats its prefix window      *)
 (*              gets the hash {} = 0, and (a, b) collides with (b, a).  Validation of real traces found    *)
 (*              exactly such merged candidate groups after the suffix stage; the contents stage splits    *)
-(*              them again, so only --skip-content-hash is affected (see SoundSkipIdeal).                  *)
+(*              them again, so only --skip-content-hash is affected (see SoundSkipIdeal) - EXCEPT when the *)
+(*              suffix window IS the prefix window (file not longer than both chunk lengths, yet at least *)
+(*              the suffix threshold): x ^ x = 0 for every such file and the contents stage skips them   *)
+(*              (len < P).  TLC shows Sound violated with SLen >= len (MC_Grouping_bigS, 4 paths); the     *)
+(*              code now keeps the old hash when the new one equals it, and so does NewHash.              *)
 (*              With --transform also tlen, tk: length and atom of the transform output.                   *)
 (*   inp.cfg    [kind, rf, isolate, matchLinks, skipContent, transform, P, T]                              *)
 (*   inp.bad    set of paths through which the file cannot be read (C15); `failed` collects the paths     *)
@@ -71,7 +75,7 @@ After(s) == CASE s = "size" -> "prefix" [] s = "prefix" -> "suffix"
 Post(s, g) == IF s \in {"contents", "transform"} THEN Strictly(g.files) ELSE Matches(g.files)
 Xor(a, b) == (a \ b) \cup (b \ a)
 NewHash(s, f, old) == CASE s = "prefix" -> {File(f).pk}
-                        [] s = "suffix" -> Xor(old, {File(f).sk})                 \* old_hash ^ new_hash
+                        [] s = "suffix" -> IF old = {File(f).sk} THEN old ELSE Xor(old, {File(f).sk})   \* old_hash ^ new_hash, but not x ^ x (fix below)
                         [] s = "contents" -> {File(f).ck}
                         [] s = "transform" -> {File(f).tk}
 \* the length a path carries after the stage: the hash function of the transform stage updates it to the output length
